@@ -70,6 +70,10 @@ func VH_C07_decrypt_cert() {
 // recipient certificate different from the SP's (inline or detached EncryptedKey).
 func VH_C07_recipient() {
 	cert := &tls.Certificate{Certificate: [][]byte{vBytes("spcert")}, PrivateKey: vRSAKey("sp")}
+	if vFlag("spcert.has-chain") {
+		// the key store holds a chain: the SP's own (leaf) certificate first, then its issuer's
+		cert.Certificate = append(cert.Certificate, vBytes("cacert"))
+	}
 	// data encryption itself is well-formed AES-128-GCM, so that only the key transport decides
 	ea := vhEncryptedAssertionAlg(cert, true, 64, "http://www.w3.org/2009/xmlenc11#aes128-gcm")
 	vAssume(vAnd(vB64OK(ea.CipherValue), vAnd(vCipherLen(ea.CipherValue) >= 28, vGCMTagOK("cv"))))
